@@ -72,6 +72,8 @@ def cases(tier, seed):
     pls = polylines(b["polylines"])
     for i in range(len(pls)):
         yield ("poly", b["polylines"], i, 0)
+    for i in range(0, len([p for p in pls if len(p) == 3]), 4):
+        yield ("polydup", b["polylines"], i, 0)
     for i in range(len(FIXED)):
         yield ("fixed", 0, i, 0)
 
@@ -81,6 +83,8 @@ def describe(case):
         return {"segment_A": segments(case[1])[case[2]], "against": "every segment of the grid, both parameter intervals"}
     if case[0] == "selfcross":
         return {"self_crossing_polylines_from_index": case[2]}
+    if case[0] == "polydup":
+        return {"three_vertex_polylines_with_doubled_middle_vertex_from_index": case[2]}
     if case[0] == "poly":
         return {"polyline_A": polylines(case[1])[case[2]], "against": "a fixed family of segments"}
     return {"fixed_pair": FIXED[case[2]][0]}
@@ -235,6 +239,23 @@ def run_case(case, res):
                 res.nontriv((pts, B))
             check_pairs(res, ca, cb, k, crossings, f"polyline {pts} knots {knots} x segment {B} on [1,3]", tags, True)
             check_pairs(res, cb, ca, k, [(u, t) for t, u in crossings], f"segment {B} on [1,3] x polyline {pts}", tags, True)
+        return res.observe(sorted(res.outcomes.items()))
+    if kind == "polydup":
+        # a vertex listed twice: a zero-length piece in the middle of the polyline (degree 0 once cleaned)
+        for pts3 in [p for p in polylines(case[1]) if len(p) == 3][case[2]:case[2] + 4]:
+            pts = (pts3[0], pts3[1], pts3[1], pts3[2])
+            knots = [F(0), F(1, 2), F(2), F(3)]
+            ca = poly_curve(pts, knots)
+            for B in PROBE_SEGS:
+                Bx = tuple(tuple(F(c).limit_denominator(10) for c in p) for p in B)
+                k, crossings = geom.classify_polylines(knots, pts, [F(1), F(3)], Bx)
+                cb = seg_curve(B, (1, 3))
+                res.state((pts, B))
+                tags = dict(shape="polyline_doubled_vertex", cls=k, boxes=True)
+                if k != "disjoint":
+                    res.nontriv((pts, B))
+                check_pairs(res, ca, cb, k, crossings, f"polyline {pts} knots {knots} x segment {B} on [1,3]", tags, True)
+                check_pairs(res, cb, ca, k, [(u, t) for t, u in crossings], f"segment {B} on [1,3] x polyline {pts}", tags, True)
         return res.observe(sorted(res.outcomes.items()))
     name, (Ua, Pa, Wa), (Ub, Pb, Wb), expect = FIXED[case[2]]
     ca = lib.Curve(Ua, lib.np.array(Pa, dtype="float64"), Wa)
